@@ -9,3 +9,5 @@ CHECKS.update({"C04": ("hilbert", "run_c04")})
 CHECKS.update({"C14": ("loader", "run_c14")})
 CHECKS.update({"C02": ("arrays", "run_c02"), "C07": ("arrays", "run_c07"), "C08": ("arrays", "run_c08"), "C10": ("arrays", "run_c10")})
 CHECKS.update({"C09": ("vectors", "run_c09")})
+CHECKS.update({"C05": ("hist", "run_c05")})
+CHECKS.update({"C03": ("maps", "run_c03"), "C11": ("maps", "run_c11")})
